@@ -610,7 +610,11 @@ def build_zip(c, rng):
         if m["dir"]:
             name, data = f"d{n}/".encode(), b""
         else:
-            name, data = f"m{n}.txt".encode(), f"zq{n:04d}x member {n}\n".encode()
+            # member names of every class the archive reader tells apart: extracted (.txt), skipped for their type (.dat),
+            # hidden (dot-file), resource-fork directory (__MACOSX/).  Encryption.tla classifies the container by the flag
+            # bits of ANY non-directory member ("encrypted ZIP archives are rejected"), whatever its name
+            pattern = rng.choice(("m{n}.txt", "m{n}.txt", "m{n}.dat", ".m{n}.txt", "__MACOSX/m{n}.txt", "sub/.m{n}.txt"))
+            name, data = pattern.format(n=n).encode(), f"zq{n:04d}x member {n}\n".encode()
         crc = zlib.crc32(data) & 0xFFFFFFFF
         method = 0
         payload = data
